@@ -623,9 +623,22 @@ pub fn replay_tier(cx: &RunCtx, checks: &[Box<dyn DynCheck>]) -> usize {
         // uncommitted fail-* files from an earlier failing run are not part of
         // the regression tier unless committed; we still replay them (they are
         // in the directory) — a stale one simply passes once the tree is right.
-        let (cname, v) = replay_file(Some(cx), checks, f);
+        let t0 = std::time::Instant::now();
+        let (cname, mut v) = replay_file(Some(cx), checks, f);
         n += 1;
         let kf = witness_of.get(f);
+        // the witness of an OPEN finding whose defect is schedule-dependent (e.g. a wrong answer
+        // that needs a particular interleaving of the engine's own threads) may pass on one run:
+        // a cheap witness is tried a few more times before it is called stale
+        if matches!((&v, kf), (Verdict::Pass, Some(k)) if k.status == "open") && t0.elapsed().as_secs() < 5 {
+            for _ in 0..9 {
+                let (_, again) = replay_file(Some(cx), checks, f);
+                if !matches!(again, Verdict::Pass) {
+                    v = again;
+                    break;
+                }
+            }
+        }
         match (&v, kf) {
             (Verdict::Pass, Some(k)) if k.status == "open" => {
                 cx.note(format!(
